@@ -29,6 +29,22 @@ Check C20_listing_is_json : forall rows : list lease,
   exists j, json_parse (render rows) = Some j /\ entries j = Some (map spec_entry rows).
 Print Assumptions C20_listing_is_json.
 
+(* the listing as the HTTP handler serves it (`leases.sort(); leases_to_json`): whatever order the store
+   returns its rows in, the document holds one entry per stored lease -- a permutation of the rows, in
+   the order of their addresses *)
+Theorem C20_served_listing : forall rows : list lease,
+  forallb wf_lease rows = true ->
+  exists j es, json_parse (serve_listing rows) = Some j /\ entries j = Some es /\
+               Permutation.Permutation es (map spec_entry rows) /\
+               es = map spec_entry (sort_by_ip rows) /\ Sorted.Sorted ip_le (sort_by_ip rows).
+Proof. exact served_listing. Qed.
+Check C20_served_listing : forall rows : list lease,
+  forallb wf_lease rows = true ->
+  exists j es, json_parse (serve_listing rows) = Some j /\ entries j = Some es /\
+               Permutation.Permutation es (map spec_entry rows) /\
+               es = map spec_entry (sort_by_ip rows) /\ Sorted.Sorted ip_le (sort_by_ip rows).
+Print Assumptions C20_served_listing.
+
 (* "The active-leases gauge equals the number of leases whose expiry lies in
    the future and the expired-leases gauge the number whose expiry has passed,
    including when there are no leases at all" *)
